@@ -602,7 +602,7 @@ def coq_case(case, ops, obs):
 
 # --------------------------------------------------------------------------- icecast
 
-class StopDriver(Exception):
+class StopDriver(BaseException):       # not an Exception: must pass through `except Exception` of the code under test
     pass
 
 
@@ -867,7 +867,7 @@ SPIN_LIMIT = 40            # consecutive empty raw.read() results after the end 
 RAW_CALL_LIMIT = 20000     # hard guard on the number of raw.read() calls of one case
 
 
-class Spins(Exception):
+class Spins(BaseException):
     pass
 
 
@@ -942,7 +942,8 @@ def run_ice2(case):
     script = list(case["ops"])
     ops, obs = [], []
     st = {"i": 0, "q": 0, "ci": 0, "empties": 0, "calls": 0, "slice": False, "in_iter": False,
-          "consumer": False, "spin": False, "short": False}
+          "consumer": False, "spin": False, "short": False, "gets": 0, "ranged": 0, "fault": False, "fatal": None}
+    fault = case.get("fault")             # {"at": physical offset, "exc": name}: the first connection breaks there
 
     def record(op, r):
         if r[0] == "data":
@@ -950,7 +951,7 @@ def run_ice2(case):
         ops.append(op)
         obs.append({"res": r, "pos": buf.position, "size": buf.size, "rem": buf.remaining, "src": st["q"],
                     "prot": bool(buf.protected_headroom), "stop": bool(cli._stop_stream), "spin": st["spin"],
-                    "short": st["short"]})
+                    "short": st["short"], "gets": st["gets"], "ranged": st["ranged"], "fault": st["fault"]})
 
     def consumer_op(op):
         st["consumer"] = True
@@ -1011,16 +1012,31 @@ def run_ice2(case):
     class Raw:
         headers = {"icy-metaint": str(meta)} if meta else {}
 
+        def __init__(self):
+            self.conn = st["gets"]
+            self.end = fault["at"] if (fault and self.conn == 1) else len(body)
+            if self.conn > 1:
+                st["q"] = 0                   # a new GET without an offset is answered from the start of the body
+
         def read(self, n):
             st["calls"] += 1
             if st["calls"] > RAW_CALL_LIMIT:
-                raise ImplError("more than %d raw.read() calls" % RAW_CALL_LIMIT, None)
+                st["fatal"] = "more than %d raw.read() calls" % RAW_CALL_LIMIT
+                raise StopDriver()
             if not st["in_iter"]:             # first read of an iteration: the block fitted
                 if not st["slice"]:
                     consumer_until_download()
                 st["slice"] = False
                 st["in_iter"] = True
-            k = min(n, len(body) - st["q"])
+            k = min(n, self.end - st["q"])
+            if k <= 0 and n > 0 and self.end < len(body):
+                # the connection is lost here
+                import requests as real_requests
+                st["fault"] = True
+                exc = {"ConnectionError": real_requests.exceptions.ConnectionError,
+                       "ChunkedEncodingError": real_requests.exceptions.ChunkedEncodingError,
+                       "OSError": OSError}[fault["exc"]]
+                raise exc("connection reset by peer (scripted)")
             if k > 0:
                 cap = caps[st["ci"]] if st["ci"] < len(caps) else None
                 st["ci"] += 1
@@ -1053,9 +1069,18 @@ def run_ice2(case):
         def __exit__(self, *a):
             return False
 
+    import requests as real_requests
+
     class Requests:
+        exceptions = real_requests.exceptions
+        RequestException = real_requests.RequestException
+        ConnectionError = real_requests.ConnectionError
+
         @staticmethod
-        def get(url, stream=True, timeout=None):
+        def get(url, stream=True, timeout=None, headers=None, **kw):
+            st["gets"] += 1
+            if headers and any(h.lower() == "range" for h in headers):
+                st["ranged"] += 1
             return Handle()
 
     class Time:
@@ -1066,7 +1091,8 @@ def run_ice2(case):
         @staticmethod
         def sleep(x):
             if st["consumer"]:
-                raise ImplError("read() waits although enough data is buffered or the stream has stopped", None)
+                st["fatal"] = "read() waits although enough data is buffered or the stream has stopped"
+                raise StopDriver()
             if st["slice"]:
                 record(("download",), ("none",))     # the marker was used up by a failed fits()
                 st["slice"] = False
@@ -1077,10 +1103,15 @@ def run_ice2(case):
     A.requests, A.time = Requests, Time
     try:
         try:
-            cli._download_stream()
-            if st["slice"]:
-                pass
+            cli._stream_wrapper()              # what the download thread runs: _download_stream + error handling
+            if st["in_iter"]:
+                # the loop ended in the middle of an iteration (connection lost): that turn is over
+                st["in_iter"] = False
+                st["slice"] = False
+                record(("download",), ("none",))
         except StopDriver:
+            if st["fatal"]:
+                raise ImplError(st["fatal"], ops)
             return ops, obs
         except Spins:
             st["spin"] = True
@@ -1182,12 +1213,21 @@ def oracle_ice2(case, ops, obs):
                     return fail("C17:icecast:%s" % what, "read returned %r, audio continues at offset %d" % (runs[:3], c), i)
                 pending_seek = None
                 c += total
-            elif op[1] > 0 and ob["stop"] and c < audio and not (ob["prot"] and ob["rem"] == 0) and pending_seek is None:
+            elif op[1] > 0 and ob["stop"] and c < audio and not (ob["prot"] and ob["rem"] == 0) and pending_seek is None \
+                    and not ob["fault"]:
                 if case["meta"] and short_seen and taint is None:
                     taint = (OVERREAD_KEY, "short read in ICY mode: _readall over-reads; framing is lost")
                 return fail("C17:icecast:premature-eof", "end of stream signalled (stopped, nothing buffered) at audio "
                             "offset %d of %d" % (c, audio), i)
     last = obs[-1] if obs else None
+    if last is not None and last["gets"] - last["ranged"] > 1:
+        # the connection was lost and the client asked for the stream again from its start: whatever it does with the
+        # answer, the body starts over
+        return fail("C17:icecast:reconnect-restarts-stream", "%d GET requests without a Range/offset for one stream (the "
+                    "connection was lost after %d body bytes); reader had got %d audio bytes"
+                    % (last["gets"] - last["ranged"], (case.get("fault") or {}).get("at", -1), c), len(obs) - 1)
+    if last is not None and last["fault"]:
+        return None                      # after a lost connection any in-order prefix followed by the end is fine
     if last is not None and last["spin"]:
         # The recorded finding explains exactly this: the loop never returns, the end is never signalled and
         # what follows the last COMPLETE frame (interval + length byte + metadata) is never add()ed.
@@ -1225,11 +1265,19 @@ def c_iop2(op):
 
 
 def coq_ice2_case(case, ops, obs):
+    if case.get("fault"):
+        body = rle(ice2_body(case)[:case["fault"]["at"]])      # for the model a lost connection is a body that ends there
+    else:
+        body = rle(ice2_body(case))
+    return _coq_ice2(case, ops, obs, body)
+
+
+def _coq_ice2(case, ops, obs, body):
     keep = [j for j, o in enumerate(ops) if o[0] not in ("pbegin", "pend")]
     ops, obs = [ops[j] for j in keep], [obs[j] for j in keep]
     return "(%s, %s, %s, %s, %s,\n  %s,\n  [%s],\n  [%s],\n  [%s])" % (
         cnum(case["block"]), cnum(case["meta"]), cnum(case["size"]), cnum(case["head"]), common.cbool(case["prot"]),
-        c_data(rle(ice2_body(case))), "; ".join(c_optN(x) for x in case["caps"]),
+        c_data(body), "; ".join(c_optN(x) for x in case["caps"]),
         "; ".join(c_iop2(o) for o in ops), "; ".join(c_obs2(o) for o in obs))
 
 
@@ -1264,9 +1312,18 @@ def gen_ice2_case(rng, size, head, block, meta, exact):
     for _ in range(turns):
         ops += [("download",), ("read", size)]
     ops += [("download",), ("read", size), ("read", size)]
-    return {"kind": "ice2", "size": size, "head": head, "prot": rng.random() < 0.5, "block": block, "meta": meta,
+    case = {"kind": "ice2", "size": size, "head": head, "prot": rng.random() < 0.5, "block": block, "meta": meta,
             "audio": audio, "metas": metas, "caps": caps, "cut_after_audio": rng.random() < 0.2,
             "len": audio, "ops": ops, "complete": True}
+    physical = len(ice2_body(case))
+    if physical > 1 and rng.random() < 0.35:
+        # the connection is lost after `at` bytes of the body: at a block boundary, inside a block, inside an ICY frame
+        unit = meta + 1 if meta else block
+        at = rng.choice([unit, 2 * unit, unit + 1, max(1, unit - 1), 3 * unit + (meta or 0) // 2 + 1,
+                         rng.randint(0, physical - 1), rng.randint(0, physical - 1)])
+        case["fault"] = {"at": max(0, min(at, physical - 1)),
+                         "exc": rng.choice(["ConnectionError", "ChunkedEncodingError", "OSError"])}
+    return case
 
 
 # --------------------------------------------------------------------------- icecast, two threads on one buffer
@@ -1275,7 +1332,7 @@ class Blocked(Exception):
     """The party that is running needs _buffer_lock while the other party holds it."""
 
 
-class StopTurn(Exception):
+class StopTurn(BaseException):
     pass
 
 
@@ -1901,6 +1958,8 @@ def evaluate(ctx, case, origin, coq_items):
                      "returned": [o["res"][1] if o["res"][0] == "data" else o["res"][-1] for o in obs[:14]]})
     # quick tier: the exhaustive tiny-buffer histories are all judged by the oracle, every second one is also
     # compared with the model in Coq (they share prefixes heavily); thorough compares all of them
+    if case.get("fault") and case.get("meta"):
+        return          # a connection lost inside an ICY frame has no counterpart in the model: judged by the oracle only
     negative = any(o["pos"] < 0 or o["size"] < 0 or o["rem"] < 0 or (o["res"][0] == "num" and o["res"][1] < 0) for o in obs)
     if negative:
         if not err:
